@@ -178,9 +178,9 @@ def run(ctx):
     t0 = time.time()
     ctx.overlay()                                          # (written once, before any thread uses it)
     # Up to ~20 TLC processes run side by side: cap their heaps (the JVM default is a quarter of the RAM each)
-    os.environ["JAVA_TOOL_OPTIONS"] = "-Xmx6g"             # the two monitor runs (they load all recorded vectors)
-    small = {"JAVA_TOOL_OPTIONS": "-Xss512m -Xmx1200m"}
-    mid = {"JAVA_TOOL_OPTIONS": "-Xss512m -Xmx3g"}
+    os.environ["JAVA_TOOL_OPTIONS"] = "-Xmx10g"            # the two monitor runs (they load all recorded vectors)
+    small = {"JAVA_TOOL_OPTIONS": "-Xss512m -Xmx2500m"}
+    mid = {"JAVA_TOOL_OPTIONS": "-Xss512m -Xmx4g"}
 
     # ------------------------------------------------------------------ U1 (design checks), in the background
     ring_cfgs = [("RingCheck_n1.cfg", "Nodes1", 7), ("RingCheck_n2.cfg", "Nodes2", 7)]
@@ -209,7 +209,7 @@ def run(ctx):
                                          simulate="num=%d" % (2000 if thorough else 200), depth=80, seed=ctx.seed, timeout=1500, env=small)))
 
     # ------------------------------------------------------------------ schedules from the spec (as built)
-    ngen, per, depth = (8, 250, 70) if thorough else (6, 40, 70)
+    ngen, per, depth = (8, 150, 70) if thorough else (6, 40, 70)
     gens = [Bg(gen_schedules, ctx, k, 1000 * ctx.seed + k, per, depth) for k in range(ngen)]
 
     # ------------------------------------------------------------------ recording: ring, placement, gate
